@@ -230,6 +230,8 @@ class QuicConn:
             self.c_scid = rbytes(r2, sp["c_scid_len"])
             self.s_scid = rbytes(r2, sp["s_scid_len"])
         self.cr = rbytes(rnd, 32)
+        self.paths = []            # per datagram: index of the client's network path (0 = the one the connection started on)
+        self.path = 0
         self.offered = list(sp["offered"] or [suite])
         self.excluded = 0
         if sp["early"] and self.offered[0] != suite and not sp.get("allow_early_suite_not_first"):
@@ -374,6 +376,7 @@ class QuicConn:
 
     def dgram(self, srv, *pkts, chunks=()):
         self.datagrams.append((srv, b"".join(pkts), list(chunks)))
+        self.paths.append(getattr(self, "path", 0))
         self.meta.append([x for p in pkts for x in getattr(p, "parts", ())])
 
     # ---- handshake according to the spec
@@ -526,6 +529,15 @@ class QuicConn:
             self.issued[d].append(cid)
             self.dgram(d, self.packet("app", d, f_new_cid(seq, 0, cid, rbytes(rnd, 16))))
             self.features.add("ncid")
+            return
+        if op == "rebind":
+            # the client's address changes (NAT rebinding / migration, RFC 9000 9): from now on its datagrams come from - and the
+            # server's go to - another source port; generated only when both endpoints use non-empty connection IDs (a passive observer can then attribute every datagram)
+            if self.s_scid and self.c_scid and not self.spec.get("share_cids"):
+                # (not combined with connection IDs that another connection of the capture also uses: after an address change only
+                # the connection ID tells the observer which connection a datagram belongs to)
+                self.path += 1
+                self.features.add("client_address_change")
             return
         if op == "usecid":
             d = bool(st["d"])
